@@ -37,6 +37,14 @@ Interpretation choices (soundness first):
   text is the n-th ATX heading with that text, its level must be the expected one, no text may come out as a
   heading more often than in the source, and a word must occur in the output at least as often as in the
   source elements rendered.  Table-of-contents entries ([text](#anchor) list items) are not source list items.
+* Ragged tables (family G): rows with differing numbers of cells - a first row narrower than the rest (a one-cell
+  caption row without a span), a first row wider, a short row in the middle or at the end - as ODT rows with
+  fewer cells, DOCX rows with fewer w:tc than the grid, HTML rows with fewer / more cells than the first row,
+  model.Table with uneven rows (directly and through the rag pipeline).  Expected: rows x widest-row columns,
+  every existing cell in its row and column; the positions a short row lacks are free (whatever the writer pads
+  with).  A trailing colspan is the merged-cell dimension.  Not generated: a row without any cell (no text to
+  keep; ODF forbids it) and ragged PPTX / XLSX tables (every a:tr has one a:tc per grid column; a sheet has
+  no short rows).
 * A header-less table may use its first row as the Markdown header row (GFM has no header-less table); what is
   required is that the grid reads back with the same rows once.
 * Heading level = clamp(level + offset, 1, min(max, 6)) for max in 1..6 (the statement's range; max = 0 "unset"
@@ -67,7 +75,8 @@ EVIDENCE = dict(
          "all rows; per format: w:tblHeader, table-header-rows, thead/th/tbody/tfoot, IsHeader, firstRow) x every fitting "
          "2-cell/4-cell merge, small tables over the full "
          "cell alphabet, block sequences (every 2-3 block sequence over table/heading/list/paragraph with a table, tables "
-         "adjacent to each other and to every other kind, first and last), repeated content (every heading sequence of "
+         "adjacent to each other and to every other kind, first and last), ragged tables (every row-width vector over "
+         "2..3 x 2..3 with a full and a short row, header marking none/first), repeated content (every heading sequence of "
          "<= MaxRepeat over 2 texts x 2 levels with a repeated text, with/without paragraphs, TOC on/off; paragraph / "
          "item / cell / heading repeating a heading text), 540 heading cases (9 levels x offsets -2..7 x max 1..6), every well-formed list shape <= 5 items "
          "x depth <= 3 x kinds, 24 combined documents (front matter, TOC, offsets) - enumerated by TLC with the expected "
@@ -105,7 +114,7 @@ def run(ctx):
     # the negative controls and the history model run side by side with the large enumeration
     pool = ThreadPoolExecutor(max_workers=8)
     side = [pool.submit(ctx.tlc, "MarkdownMC", "Markdown_mc_impl_%s.cfg" % v, expect_violation=True, workers=2,
-                        extra=["-noGenerateSpecTE"]) for v in ("esc", "hdr", "hdrlast", "merge", "sep", "dedup")]
+                        extra=["-noGenerateSpecTE"]) for v in ("esc", "hdr", "hdrlast", "merge", "sep", "dedup", "width")]
     side.append(pool.submit(ctx.tlc, "MdHistoryMC", "MdHistory_mc_impl.cfg", expect_violation=True, workers=2,
                             extra=["-noGenerateSpecTE"]))
     hruns = [pool.submit(ctx.tlc, "MdHistoryMC", cfg, workers=4, collect=True, timeout=1800, count=False)
